@@ -597,6 +597,10 @@ def cfg_diff(a, b, path=""):
 def run(ctx):
     binp = build_harness(ctx)
     msgs, spans = regen(ctx, ["config_tables", "config_conv", "config_sites", "config_steps"])
+    try:
+        ctx.cov["repair_flags"] = cc.repair_flags()     # also exported to the harness (CFG_REPAIR_FLAGS)
+    except OSError:
+        ctx.cov["repair_flags"] = {}
     ctx.cov["translated_spans"] = {k: v for k, v in spans.items() if k.startswith(("pm_type", "polarization", "math::sigfigs", "config::", "utils::from_kelvin"))}
     for m in msgs:
         ctx.proof_failures.append(("Gen/Config*.v", "translator", m))
